@@ -443,4 +443,96 @@ theorem output_create_failure_after_cyborg (p : Path)
   rw [hrun]
   exact ⟨rfl, by simp, by rw [failWith_fs]; exact hpe, by simp, rfl⟩
 
+/-! ### non-vacuity: concrete worlds in which the hypotheses of the theorems above hold -/
+
+/-- `out` is a pre-existing file LONGER than any report below; `d` a directory; `full` = `/dev/full` -/
+def exFs : Fs where
+  entry := fun p =>
+    if p = "out" then .file [9, 9, 9, 9, 9, 9, 9, 9, 9, 9, 9, 9]
+    else if p = "cy" then .file [8, 8, 8, 8, 8, 8, 8, 8]
+    else if p = "d" then .dir else if p = "full" then .full else .absent true
+  limit := fun _ => none
+
+def exReps : Reports :=
+  { human := ⟨[72, 10], 0⟩, humanBrief := ⟨[104, 10], 0⟩, json := ⟨[123, 125], 1⟩, jsonPretty := ⟨[123, 10, 125], 1⟩,
+    dump := ⟨[68, 10], 0⟩, dumpBrief := ⟨[100, 10], 0⟩, helpMd := ⟨[35, 10], 0⟩ }
+
+def exWorld : World := ⟨exFs, ⟨[], [], none, .other⟩, []⟩
+def exRender : Diag → Bytes := fun _ => [69, 10]
+def noFlags : Flags := ⟨false, false, false, false, false, false⟩
+def exCfg : Cfg := { flags := noFlags, cyborgPath := "", helpMarkdown := false, outputFile := none, logFile := none, verboseOff := false }
+
+-- `--output-file out` over a longer pre-existing file: status 0 and exactly the 2 bytes of the report
+example : (run exRender { exCfg with outputFile := some "out" } .ok exReps exWorld).exit = 0 ∧
+    (run exRender { exCfg with outputFile := some "out" } .ok exReps exWorld).world.fs.entry "out" = .file [72, 10] ∧
+    (run exRender exCfg .ok exReps exWorld).world.stdout.out = [72, 10] := by decide
+example : Regular exFs "out" ∧ Regular exFs "cy" ∧ Regular exFs "new" :=
+  ⟨Or.inl ⟨_, rfl⟩, Or.inl ⟨_, rfl⟩, Or.inr rfl⟩
+-- `--cyborg cy --output-file out --brief --pretty`
+example :
+    let cfg := { exCfg with flags := { noFlags with cyborg := true, brief := true, pretty := true },
+                            cyborgPath := "cy", outputFile := some "out" }
+    (run exRender cfg .ok exReps exWorld).exit = 0 ∧
+    (run exRender cfg .ok exReps exWorld).world.fs.entry "out" = .file [104, 10] ∧
+    (run exRender cfg .ok exReps exWorld).world.fs.entry "cy" = .file [123, 10, 125] := by decide
+-- finding D1: `--cyborg /dev/full`: status 1 AFTER the complete human report reached standard output
+example :
+    let cfg := { exCfg with flags := { noFlags with cyborg := true }, cyborgPath := "full" }
+    (run exRender cfg .ok exReps exWorld).exit = 1 ∧
+    (run exRender cfg .ok exReps exWorld).world.stdout.out = [72, 10] ∧
+    (run exRender cfg .ok exReps exWorld).world.stderr = [.ioError] := by decide
+-- finding D2: the same path twice: status 0, the file holds the JSON report (the human report is gone)
+example :
+    let cfg := { exCfg with flags := { noFlags with cyborg := true }, cyborgPath := "out", outputFile := some "out" }
+    (run exRender cfg .ok exReps exWorld).exit = 0 ∧
+    (run exRender cfg .ok exReps exWorld).world.fs.entry "out" = .file [123, 125] := by decide
+-- finding D3: `--json` to a standard output that takes 1 of the 2 bytes: status 0, no diagnostic, 1 byte
+example :
+    let cfg := { exCfg with flags := { noFlags with json := true } }
+    let w : World := ⟨exFs, ⟨[], [], some 1, .other⟩, []⟩
+    exitOf cfg.flags .ok = 0 ∧ (run exRender cfg .ok exReps w).exit = 0 ∧
+    (run exRender cfg .ok exReps w).world.stdout.out = [123] ∧ (run exRender cfg .ok exReps w).world.stderr = [] := by
+  decide
+-- … the human report (ends in a newline, nothing pending) on the same standard output: detected
+example :
+    let w : World := ⟨exFs, ⟨[], [], some 1, .other⟩, []⟩
+    (run exRender exCfg .ok exReps w).exit = 1 ∧ (run exRender exCfg .ok exReps w).world.stdout.out = [72] ∧
+    (run exRender exCfg .ok exReps w).world.stderr = [.ioError] := by decide
+-- a reader that went away: status 0, nothing written, no diagnostic
+example :
+    let w : World := ⟨exFs, ⟨[], [], some 0, .brokenPipe⟩, []⟩
+    (run exRender exCfg .ok exReps w).exit = 0 ∧ (run exRender exCfg .ok exReps w).world.stdout.out = [] ∧
+    (run exRender exCfg .ok exReps w).world.stderr = [] := by decide
+-- processing fails: both files are left empty; the log file holds the diagnostic, standard error nothing
+example :
+    let cfg := { exCfg with flags := { noFlags with cyborg := true }, cyborgPath := "cy", outputFile := some "out",
+                            logFile := some "log" }
+    (run exRender cfg .unprocessable exReps exWorld).exit = 1 ∧
+    (run exRender cfg .unprocessable exReps exWorld).world.fs.entry "out" = .file [] ∧
+    (run exRender cfg .unprocessable exReps exWorld).world.fs.entry "cy" = .file [] ∧
+    (run exRender cfg .unprocessable exReps exWorld).world.fs.entry "log" = .file [69, 10] ∧
+    (run exRender cfg .unprocessable exReps exWorld).world.stderr = [] := by decide
+-- the output file is a directory: status 1, the cyborg file is already truncated
+example :
+    let cfg := { exCfg with flags := { noFlags with cyborg := true }, cyborgPath := "cy", outputFile := some "d" }
+    (run exRender cfg .ok exReps exWorld).exit = 1 ∧
+    (run exRender cfg .ok exReps exWorld).world.fs.entry "cy" = .file [] ∧
+    (run exRender cfg .ok exReps exWorld).world.stdout.out = [] := by decide
+-- the statuses 2 and 101
+example : (run exRender { exCfg with flags := { noFlags with json := true, dump := true } } .ok exReps exWorld).exit = 2 := by
+  decide
+example :
+    let w : World := ⟨exFs, ⟨[], [], some 0, .other⟩, []⟩
+    (run exRender { exCfg with helpMarkdown := true } .ok exReps w).exit = 101 := by decide
+-- a healthy world
+example : Healthy { exCfg with outputFile := some "out", logFile := some "log" } exWorld where
+  stdout := rfl
+  log := fun l h => by
+    have : l = "log" := by simpa using h.symm
+    subst this; exact Or.inr rfl
+  cyborg := fun h => by simp [exCfg, noFlags] at h
+  output := fun p h => by
+    have : p = "out" := by simpa using h.symm
+    subst this; exact ⟨Or.inl ⟨_, rfl⟩, rfl⟩
+
 end MdModel.Cli
